@@ -347,6 +347,53 @@ func recC12(c *ctx) {
 		}
 		bemit(vt.Ev{"op": "srbverify", "all": all, "vec": vec})
 		bemit(vt.Ev{"op": "srbonly", "res": bv.VerifyBatchOnly(nil)})
+		// reuse after Reset: a batch of valid entries, Reset, then malformed entries (R that does not decompress, an
+		// uninitialised signature) in the slots the valid ones occupied - nothing of the first batch may survive
+		if h%2 == 1 {
+			mkValid := func() (*sr25519.PublicKey, []byte, *sr25519.Signature) {
+				k, _ := sr25519.GenerateKeyPair(bytes.NewReader(r.Bytes(4096)))
+				msg := r.Bytes(10)
+				sig, _ := k.Sign(bytes.NewReader(r.Bytes(64)), sctx.NewTranscriptBytes(msg))
+				return k.PublicKey(), msg, sig
+			}
+			bv.Reset()
+			bemit(vt.Ev{"op": "srbreset"})
+			for i := 0; i < 3; i++ {
+				pk, msg, sig := mkValid()
+				bv.Add(pk, sctx.NewTranscriptBytes(msg), sig)
+				bemit(vt.Ev{"op": "srbadd", "kind": "valid", "single": pk.Verify(sctx.NewTranscriptBytes(msg), sig)})
+			}
+			bemit(vt.Ev{"op": "srbonly", "res": bv.VerifyBatchOnly(nil)})
+			bv.Reset()
+			bemit(vt.Ev{"op": "srbreset"})
+			for i := 0; i < 3; i++ {
+				pk, msg, sig := mkValid()
+				kind := "valid"
+				switch i {
+				case 0: // R that does not decompress
+					sbb, _ := sig.MarshalBinary()
+					bad := make([]byte, 32)
+					bad[0] = 1
+					sig, _ = sr25519.NewSignatureFromBytes(append(bad, sbb[32:]...))
+					kind = "badR"
+				case 2:
+					sig = &sr25519.Signature{}
+					kind = "zerosig"
+				}
+				if sig == nil {
+					continue
+				}
+				single := pk.Verify(sctx.NewTranscriptBytes(msg), sig)
+				bv.Add(pk, sctx.NewTranscriptBytes(msg), sig)
+				bemit(vt.Ev{"op": "srbadd", "kind": kind, "single": single})
+			}
+			bemit(vt.Ev{"op": "srbonly", "res": bv.VerifyBatchOnly(nil)})
+			all3, vec3 := bv.Verify(nil)
+			if vec3 == nil {
+				vec3 = []bool{}
+			}
+			bemit(vt.Ev{"op": "srbverify", "all": all3, "vec": vec3})
+		}
 		// batch soundness probe: two individually invalid signatures whose scalar errors cancel (s1 + 1, s2 - 1): the
 		// random delinearisation coefficients must differ between entries, so the batch equation must still fail
 		if h%2 == 0 {
